@@ -106,6 +106,49 @@ def explore(res, rng, n):
         raw2 = ','.join(f'{gen.bits(f)},{gen.bits(p)},{gen.bits(r)}' for f, p, r in zip(freq2, psd2, rv2))
         reqs.append(f'synthfull {gen.bits(fs3)} {gen.bits(T2)} none {raw2}')
         meta.append((dict(case3, model='synthFull'), [float(a) for a in amps2]))
+        # ---- what is returned belongs to the caller: the time axis shifted in place (ts += t0), the series rescaled in place - the same call
+        # again must return what it returned the first time
+        if i % 3 == 0:
+            ts_first, amps_first = np.array(ts, dtype=float).copy(), np.array(amps, dtype=float).copy()
+            try:
+                if isinstance(ts, np.ndarray):
+                    ts += 5.0
+                else:
+                    ts[:] = [v + 5.0 for v in ts]
+                if isinstance(amps, np.ndarray):
+                    amps *= 3.0
+                else:
+                    amps[:] = [3.0 * v for v in amps]
+            except Exception:  # noqa (a read-only result cannot be aliased)
+                pass
+            with mock.patch.object(np.random, 'randn', side_effect=lambda k: np.array(rvals[:k])):
+                ts_b, amps_b = lsg.spectralRepresentation(fs, T, freq, psd, freqBandwidth=thin, randomSeed=1)
+            res.evaluations += 1
+            res.stat('synthesis_repeated_after_the_caller_modified_the_first_result')
+            if not np.array_equal(np.array(ts_b, dtype=float), ts_first) or not np.allclose(np.array(amps_b, dtype=float), amps_first, rtol=1e-12, atol=1e-12):
+                fail(res, 'a repeated call returns times / values altered by what the caller did to the arrays returned before', case,
+                     {'times_first': ts_first[:3].tolist(), 'times_again': [float(v) for v in ts_b[:3]]})
+        # ---- single-precision records (float32 arrays from a data logger): the same numbers as binary64 must give the same estimates
+        if i % 3 == 1:
+            L32 = rng.choice([16, 64, 257])
+            base = rng.choice([0.0, 101325.0, 1e20])
+            x32 = (np.array([rng.gauss(0, 1) for _ in range(L32)]) * (1.0 if base < 1e19 else 1e20) + (base if base < 1e19 else 0.0)).astype(np.float32)
+            x64 = [float(v) for v in x32]
+            res.evaluations += 1
+            res.stat('float32_record')
+            case32 = {'series_float32': x64[:12], 'length': L32, 'fs': 10.0}
+            try:
+                fa, pa = lsm.periodogramSpectrum(x32, 10.0)
+                fb, pb = lsm.periodogramSpectrum(x64, 10.0)
+                fwa, pwa = lsm.welchSpectrum(x32, 10.0, nperseg=8)
+                fwb, pwb = lsm.welchSpectrum(x64, 10.0, nperseg=8)
+                okp = np.allclose(pa, pb, rtol=1e-9, atol=1e-9 * float(np.max(pb))) and np.allclose(pwa, pwb, rtol=1e-9, atol=1e-9 * float(np.max(pwb)))
+            except Exception as e:  # noqa
+                fail(res, 'a float32 record raised: ' + repr(e)[:100], case32, None)
+                okp = True
+            if not okp:
+                fail(res, 'the estimates for a float32 record differ from those for the same numbers in binary64', case32,
+                     {'periodogram_float32': [float(v) for v in pa[:4]], 'periodogram_binary64': [float(v) for v in pb[:4]]})
         # ---- estimation on an arbitrary series
         L = rng.choice([8, 9, 16, 31, 64]) if i % 6 else rng.choice([4099, 5003, 8198])      # long records with a large prime factor
         x = np.array([rng.gauss(0, 1) + rng.choice([0.0, 3.0]) for _ in range(L)])
